@@ -39,3 +39,30 @@ def coqchk(c, module):
     c.obligation("coqchk:" + module, ok, out[-1500:])
     c.checker_cmds.append("coqchk -silent -o -Q coq/theories RG -Q work/%s/gen RGW %s" % (c.pid, module))
     return ok
+
+
+def build_gorules(c):
+    """Build the real cmd/gorules (a module of its own, pinned to a released go-ruleguard) against the tree under
+    verification: a private go.mod (module graph pruning on, replace => the repo) next to a merged go.sum."""
+    moddir = os.path.join(c.work, "gorules-mod")
+    os.makedirs(moddir, exist_ok=True)
+    out = os.path.join(c.work, "bin-gorules")
+    src = os.path.join(c.repo, "cmd", "gorules")
+    try:
+        mod = open(os.path.join(src, "go.mod")).read()
+        sums = open(os.path.join(src, "go.sum")).read() + open(os.path.join(c.repo, "go.sum")).read()
+    except OSError as ex:
+        c.obligation("gorules-build", False, str(ex))
+        return None
+    import re
+    mod = re.sub(r"(?m)^go \d+\.\d+(\.\d+)?\s*$", "go 1.22.0", mod)
+    mod += "\nreplace github.com/quasilyte/go-ruleguard => %s\n" % c.repo
+    with open(os.path.join(moddir, "go.mod"), "w") as f:
+        f.write(mod)
+    with open(os.path.join(moddir, "go.sum"), "w") as f:
+        f.write(sums)
+    rc, log = c.sh(["go", "build", "-modfile=" + os.path.join(moddir, "go.mod"), "-o", out, "."], cwd=src, timeout=900)
+    if rc != 0 or not os.path.exists(out):
+        c.obligation("gorules-build", False, log[-2500:])
+        return None
+    return out
